@@ -128,7 +128,7 @@ def run(rep):
     for a in STD_ASSUME:
         rep.assume(a)
     rep.assume('width-bounded P: ripple subtractors / plus-one / equality are proved per width (<=3) for all operand values, hosts and aliasing; larger widths, div-mod and sqrt are bounded-only')
-    rep.assume('assumed contract: Circuit.order_inputs/order_outputs permute the list and change nothing else (bodies exercised by the bounded layer)')
+    rep.assume('callee contract used: Circuit.order_inputs/order_outputs permute the list (requested labels first) and change nothing else — bodies verified against it under C02 (c02_order.py) for requests of up to 2 labels')
     it = new_interp()
     pv = Prover(rep, it, 'C09')
     for c in contracts(quick):
